@@ -135,7 +135,7 @@ def _make_input(shape, seed, dtype, layout):
     "C38",
     "fft_primitives",
     primitive_case,
-    quick=1000,
+    quick=500,
     thorough=30000,
     tol="vs numpy complex128: 1e-5*max|ref| (float32, observed 2e-7), 1e-12 (float64); input preserved exactly",
     rule="fftw backend and a non-power-of-two shape",
@@ -238,7 +238,7 @@ def history_case(draw):
     "C38",
     "propagator_history",
     history_case,
-    quick=300,
+    quick=150,
     thorough=8000,
     tol="vs complex128 numpy convolution with the same kernel: 1e-5 (float32, observed 3e-7), 1e-12 (float64); aliasing exact",
     rule="fftw backend and >=2 propagate calls",
@@ -420,7 +420,7 @@ def _run_pipeline(case, spec):
     "C38",
     "pipeline",
     pipeline_case,
-    quick=100,
+    quick=50,
     thorough=2500,
     tol="vs numpy/float32 run: 2e-4*max|ref| (observed 3e-6); float64 vs numpy/float64 run: 1e-9; float64 runs return float64/complex128",
     rule=">=2 slices, a non-power-of-two grid and a configuration other than numpy/float32",
@@ -536,7 +536,7 @@ def _run_transform(case, spec):
     "C38",
     "measurement_transforms",
     transform_case,
-    quick=400,
+    quick=200,
     thorough=10000,
     tol="vs numpy/float32 run: 2e-5*max|ref| (observed 1e-6); float64 vs numpy/float64 run: 1e-10",
     rule="fftw backend or float64 precision, non-power-of-two grid",
